@@ -168,23 +168,68 @@ let split_lines (text : z list) : z list list =
     | c :: t -> if int_of_z c = 10 then go [] (List.rev cur :: acc) t else go (c :: cur) acc t
   in go [] [] text
 
-let do_repl (entry : z list) : string =
-  let nlz = z_of_int 10 in
+(* Model/ReaderSession.v repl_read (extracted): MODEL = what the reader returns and how many lines it consumed;
+   SPEC = the whole-text parse of the text it reports (theorem repl_is_whole) *)
+let do_repl (entry : z list) : string * string =
   let lines = split_lines entry @ [[]; []; []; []; []] in
-  let rec go p ls n =
-    match ls with
-    | [] -> ("EOF", 0)
-    | l :: rest ->
-      let p' = p_deliver code cfix p (l @ [nlz]) in
-      (match fst (observe p'.ps_out) with
-       | StMore -> go p' rest (n + 1)
-       | StDone -> (show_obs p'.ps_out, n + 1)
-       | StErr -> ("E", 0)
-       | StCrash -> ("P", 0)
-       | StFuel -> ("X", 0))
-  in
-  let (r, n) = go (p_reset fuel (p_init fuel)) lines 0 in
-  "R=" ^ r ^ " ;; N=" ^ string_of_int n
+  let (used, r) = repl_read code cfix fuel (p_init fuel) lines in
+  let n = List.length used in
+  match r with
+  | None -> ("R=EOF ;; N=0", "-")
+  | Some o ->
+    (match fst (observe o) with
+     | StDone | StMore -> ("R=" ^ show_obs o ^ " ;; N=" ^ string_of_int n,
+                           "W=" ^ show_obs (parse_whole true cfix fuel (join_lines used)))
+     | StErr -> ("R=E ;; N=0", "-")
+     | StCrash -> ("R=P ;; N=0", "-")
+     | StFuel -> ("R=X ;; N=0", "-"))
+
+(* the unwinding of a stopped coroutine is left open in the model; replies after a Stop are not compared *)
+let unwind (o : outcome) (l : lstate) = (OErr [], l)
+
+(* queue: the pieces through Parser.NewInput, ParseTokens only where the schedule says (Model/ReaderSession.v
+   piece_calls / do_call, extracted); the observable after every ParseTokens call *)
+let do_queue (strict : bool) (text : z list) (cuts : int list) (sc : string) : string list =
+  let ps = mark_last (pieces text cuts) in
+  let sched = List.mapi (fun i _ -> i < String.length sc && sc.[i] = '1') cuts in
+  let cs = CReset :: piece_calls ps sched in
+  let rec go p cs acc =
+    match cs with
+    | [] -> List.rev acc
+    | c :: rest ->
+      let p' = do_call strict cfix fuel unwind p c in
+      (match c with
+       | CParse -> let acc = show_obs p'.par_out :: acc in
+         if is_final p'.par_out then List.rev acc else go p' rest acc
+       | _ -> go p' rest acc)
+  in go (new_parser fuel) cs []
+
+(* calls: an arbitrary sequence of parser calls, then the target text by either route *)
+let rec call_list = function
+  | "n" :: s :: rest -> CNewInput (decode s) :: call_list rest
+  | "r" :: s :: rest -> CResetAdd (decode s) :: call_list rest
+  | "R" :: _ :: rest -> CReset :: call_list rest
+  | "s" :: _ :: rest -> CStop :: call_list rest
+  | "p" :: _ :: rest -> CParse :: call_list rest
+  | _ -> []
+
+let do_calls_case (text : z list) (via : bool) (ops : string list) : string =
+  let cs = call_list ops in
+  let fresh = show_obs (parse_whole code cfix fuel text) in
+  let (p, _, replies) = List.fold_left (fun (p, tainted, acc) c ->
+      let p' = do_call code cfix fuel unwind p c in
+      match c with
+      | CParse ->
+        if tainted then (p', tainted, "?" :: acc)
+        else let o = show_obs p'.par_out in (p', is_final p'.par_out, o :: acc)
+      | CStop -> (p', true, acc)
+      | CReset | CResetAdd _ -> (p', false, acc)
+      | CNewInput _ -> (p', tainted, acc)) (new_parser fuel, false, []) cs in
+  ignore p;
+  let after = show_obs (read_after code cfix fuel unwind via cs text) in
+  let after2 = show_obs (read_pieces_after code cfix fuel unwind cs [text] []) in
+  let after = if after = after2 then after else after ^ " <> " ^ after2 in
+  "F=" ^ fresh ^ " ;; H=" ^ after ^ " ;; S=same ;; C=" ^ String.concat " | " (List.rev replies)
 
 let () =
   iter_lines (fun line ->
@@ -202,9 +247,14 @@ let () =
          (* pieces that are only queued reach the parser together with the next piece that is parsed *)
          let cuts = parse_cuts c in
          let cuts' = List.filteri (fun i _ -> i < String.length sc && sc.[i] = '1') cuts in
-         let (m, sp) = do_chunk (decode t) cuts' in
+         let (_, sp) = do_chunk (decode t) cuts' in
+         let text = decode t in
+         let w = show_obs (parse_whole code cfix fuel text) in
+         let m = "W=" ^ w ^ " ;; P=" ^ String.concat " | " (do_queue code text cuts sc) in
          Printf.printf "%s\t%s\t%s\n" id m sp
-       | ["repl"; t] -> Printf.printf "%s\t%s\t-\n" id (do_repl (decode t))
+       | ["repl"; t] -> let (m, sp) = do_repl (decode t) in Printf.printf "%s\t%s\t%s\n" id m sp
+       | "calls" :: t :: v :: ops ->
+         Printf.printf "%s\t%s\t-\n" id (do_calls_case (decode t) (v = "1") ops)
        | "hist" :: t :: _ :: rest ->
          Printf.printf "%s\t%s\t-\n" id (do_hist (decode t) (triples rest))
        | _ -> Printf.printf "%s\t-\t-\n" id)
